@@ -149,7 +149,7 @@ pub fn c08_containers() {
     std::mem::forget(prim);
 }
 
-//@ harness: c08_fresh_operands tier=thorough timeout=1500 kind=main mem=16 optional=1
+//@ harness: c08_fresh_operands tier=thorough timeout=900 kind=main mem=16 optional=1
 //@ encodes: <op::Operation as Parser>::evaluate, OPERATOR_MAP["==="], OPERATOR_MAP["!=="], js_op::strict_eq
 //@ bound: Operation{"===" / "!==", [Raw(c), Raw(c)]} with the SAME literal container c = [] twice: operands are materialised per evaluation, so the result is false / true (the pointer shortcut of strict_eq cannot fire)
 //@ cuts: evaluate_lazy_data
